@@ -10,7 +10,7 @@ cp "$src/_out/patch.diff" "$src/_out/demo_test.go" "$src/_out/meta.json" "$out/"
 res() { echo "$1" | tee -a "$out/validation.log"; }
 if [ -z "${ONLYCHECKS:-}" ]; then
 git -C /repo worktree remove --force "$val" 2>/dev/null; rm -rf "$val"
-git -C /repo worktree add --detach "$val" HEAD -q || exit 2
+git -C /repo worktree add --detach "$val" ${BASE:-HEAD} -q || exit 2
 : > "$out/validation.log"
 cd "$val"
 if ! git apply "$out/patch.diff" 2>>"$out/validation.log"; then res "APPLY: FAILED"; git -C /repo worktree remove --force "$val"; exit 1; fi
@@ -34,7 +34,17 @@ fi
 cd /verif
 sed -i '/^CHECKS/,$d' "$out/validation.log"
 exec 9>/tmp/repo.lock; flock 9
-if git -C /repo apply "$out/patch.diff"; then
+if [ -n "${BASE:-}" ] && ! git -C /repo apply --check "$out/patch.diff" 2>/dev/null; then
+  # written against the earlier HEAD $BASE and no longer applicable to today's tree: checked in memory on that base
+  flock -u 9
+  [ -d /tmp/pristine_$BASE ] || git -C /repo worktree add --detach /tmp/pristine_$BASE $BASE -q
+  go build -o bin/mcverif-seed ./cmd/mcverif && mkdir -p /tmp/vdev-seed/evidence && rm -rf /tmp/vdev-seed/fixtures && cp -r fixtures /tmp/vdev-seed/fixtures
+  for x in known_findings.json selftest seeded; do [ -e /tmp/vdev-seed/$x ] || ln -s /verif/$x /tmp/vdev-seed/$x; done
+  ./bin/mcverif-seed -repo /tmp/pristine_$BASE -verif /tmp/vdev-seed -harness harness-seed-$name -prop all -patch "$out/patch.diff" > "$out/checks.raw" 2>&1
+  python3 tools/oldbase_filter.py "$out/checks.raw" "A2.unlock-guard|no-granter" > "$out/checks.txt"; rm -f "$out/checks.raw"
+  res "CHECKS reporting a violation (in memory, on base $BASE): $(grep -o 'VIOLATION property=C[0-9]*' "$out/checks.txt" | sed 's/VIOLATION property=//' | tr '\n' ' ')"
+  grep -E "^  (VIOLATED|UNDECIDED)" "$out/checks.txt" | head -12 >> "$out/validation.log"
+elif git -C /repo apply "$out/patch.diff"; then
   ./run.sh all quick > "$out/checks.txt" 2>&1
   git -C /repo checkout -- . ; git -C /repo clean -fdq -- x app ante cmd types 2>/dev/null
   flock -u 9
